@@ -1,6 +1,6 @@
 SPECIFICATION Spec
 CONSTANTS
-  RelayClasses = {"empty", "plain", "escape", "html", "nonascii", "long", "newline", "srcdict"}
+  RelayClasses = {"empty", "plain", "escape", "html", "nonascii", "long", "newline", "binary", "control", "srcdict"}
 INVARIANTS RunAgrees Emit
 PROPERTIES Terminates
 CHECK_DEADLOCK FALSE
